@@ -728,8 +728,8 @@ func init() {
 	// that tries to tell them apart must not be fooled by the count)
 	reg(&opDef{name: "magic64", tag: "C18",
 		gen: func(w *World, r *Rng) (Step, bool) {
-			if w.regionsLive() >= maxRegions-2 {
-				return Step{}, false
+			if w.regionsLive() >= maxRegions-2 || !r.Chance(1, 6) {
+				return Step{}, false // 12 000 buckets are costly: rarer than the smallest profile weight
 			}
 			a := w.slot64(r)
 			dst := (a + 1) % numB64
@@ -867,6 +867,80 @@ func init() {
 		exec: func(w *World, st *Step) {}})
 }
 
+func init() {
+	// runedge: a run chunk of more than 4096 values with 2046..2056 runs (a run chunk of 2055 runs
+	// takes 8222 bytes, a bitmap chunk 8192), optimised, then point edits that add or split a run:
+	// the re-typing decisions and the size bounds at their tightest
+	reg(&opDef{name: "runedge", tag: "C02",
+		gen: func(w *World, r *Rng) (Step, bool) {
+			a := w.slot(r)
+			k := uint64(w.key(r))
+			if r.Bool() {
+				k = 0 // alone at key 0 the size bounds have no slack
+			}
+			n := uint64([]int{2046, 2047, 2048, 2049, 2050, 2052, 2054, 2055, 2056, 2057}[r.Intn(10)])
+			steps := []Step{{Op: "clear", S: []int{a}}}
+			if k != 0 {
+				steps = []Step{{Op: "removerange", S: []int{a}, A: []uint64{k << 16, (k + 1) << 16}}}
+			}
+			steps = append(steps,
+				Step{Op: "addmany", S: []int{a}, A: []uint64{k, 9, n, r.U64()}},
+				Step{Op: "runopt", S: []int{a}})
+			for i := 0; i < 1+r.Intn(3); i++ {
+				g := uint64(r.Intn(2040))
+				switch r.Intn(4) {
+				case 0: // an isolated value in a gap of the grid: one more run
+					steps = append(steps, Step{Op: "add", S: []int{a}, A: []uint64{k<<16 | (g*31 + 15), uint64(r.Intn(3))}})
+				case 1: // the second value of a run: splits a run of three, shortens a run of two
+					steps = append(steps, Step{Op: "remove", S: []int{a}, A: []uint64{k<<16 | (g*31 + 2), uint64(r.Intn(2))}})
+				case 2:
+					steps = append(steps, Step{Op: "remove", S: []int{a}, A: []uint64{k<<16 | 65535, uint64(r.Intn(2))}})
+				default:
+					steps = append(steps, Step{Op: "flip", S: []int{a}, A: []uint64{k<<16 | (g*31 + 10), k<<16 | (g*31 + 12)}})
+				}
+			}
+			if r.Bool() {
+				steps = append(steps, Step{Op: "runopt", S: []int{a}})
+			}
+			w.pending = append(w.pending, steps[1:]...)
+			w.probe("runedge-scenario")
+			return steps[0], true
+		},
+		exec: func(w *World, st *Step) {}})
+}
+
+func init() {
+	// allkeys: a bitmap that owns a chunk for every one of the 65536 keys (the whole universe,
+	// then a few holes so that not every chunk is a full run), validated, frozen and written
+	reg(&opDef{name: "allkeys", tag: "C09",
+		gen: func(w *World, r *Rng) (Step, bool) {
+			if w.regionsLive() >= maxRegions-2 {
+				return Step{}, false
+			}
+			a := w.slot(r)
+			dst := (a + 1 + r.Intn(len(w.B)-1)) % len(w.B)
+			steps := []Step{
+				{Op: "clear", S: []int{a}},
+				{Op: "addrange", S: []int{a}, A: []uint64{0, 1 << 32}},
+			}
+			for i := 0; i < r.Intn(3); i++ {
+				k := uint64(w.key(r))
+				lo := k<<16 | uint64(low(r))
+				steps = append(steps, Step{Op: "removerange", S: []int{a}, A: []uint64{lo, lo + uint64(1+r.Intn(3000))}})
+			}
+			if r.Bool() {
+				steps = append(steps, Step{Op: "freeze", S: []int{dst, a}, A: []uint64{r.U64()}})
+			} else {
+				steps = append(steps, Step{Op: "rt", S: []int{dst, a}, A: []uint64{uint64(r.Intn(4)), uint64(r.Intn(5)), r.U64(), 0}})
+			}
+			steps = append(steps, Step{Op: "clear", S: []int{a}}, Step{Op: "clear", S: []int{dst}})
+			w.pending = append(w.pending, steps[1:]...)
+			w.probe("allkeys-scenario")
+			return steps[0], true
+		},
+		exec: func(w *World, st *Step) {}})
+}
+
 func itoa(n int) string {
 	if n == 0 {
 		return "0"
@@ -885,7 +959,23 @@ func (w *World) kindSteps(r *Rng, b int, k uint16) []Step {
 	base := uint64(k) << 16
 	edge := func() uint64 { return uint64(lowPool[r.Intn(len(lowPool))]) }
 	var out []Step
-	switch []int{0, 1, 2, 2, 3, 4, 5, 6}[r.Intn(8)] {
+	switch []int{0, 1, 2, 2, 3, 4, 5, 6, 7}[r.Intn(9)] {
+	case 7: // one or two runs totalling exactly half a chunk (or 2048/2049/16384 values): counts
+		// whose double is a threshold (65536 = full, 4096 = the array limit)
+		total := uint64([]int{32768, 32768, 32768, 2048, 2049, 16384}[r.Intn(6)])
+		switch r.Intn(3) {
+		case 0:
+			out = append(out, Step{Op: "addrange", S: []int{b}, A: []uint64{base, base + total}})
+		case 1:
+			out = append(out, Step{Op: "addrange", S: []int{b}, A: []uint64{base + 65536 - total, base + 65536}})
+		default:
+			x := 1 + uint64(r.Intn(int(total-1)))
+			s1 := uint64(r.Intn(1000))
+			s2 := s1 + x + 1 + uint64(r.Intn(int(65536-total-s1-1)))
+			out = append(out, Step{Op: "addrange", S: []int{b}, A: []uint64{base + s1, base + s1 + x}})
+			out = append(out, Step{Op: "addrange", S: []int{b}, A: []uint64{base + s2, base + s2 + total - x}})
+		}
+		out = append(out, Step{Op: "runopt", S: []int{b}})
 	case 0: // small array
 		out = append(out, Step{Op: "addmany", S: []int{b}, A: []uint64{uint64(k), uint64([]int{0, 1, 5}[r.Intn(3)]), uint64(1 + r.Intn(400)), r.U64()}})
 	case 1: // larger array
